@@ -1,12 +1,13 @@
 SPECIFICATION Spec
 CONSTANTS
-  Conns = {1, 2}
+  Conns = {1}
   Calls = {1, 2}
-  Kind <- MCKind
+  Kind <- MCKindSmall
   AppIdsMax = 1
   Tokens = 0
-  SharedImpl = TRUE
+  SharedImpl = FALSE
   NoNilCheck = FALSE
   SwapStd = FALSE
 INVARIANTS TypeOK RolesAgree DispenseRouting OneImplPerDispense UnknownIsError IdsUnique DoneOnce
+PROPERTY Answered
 CHECK_DEADLOCK FALSE
